@@ -62,7 +62,7 @@ class StmtMixin(object):
         return ('continue',)
 
     def exec_Assert(self, node, st):
-        c = self.truth(st, self.ev(node.test, st))
+        c = self.ev_truth(node.test, st)
         if self.ct.kind == 'lemma':
             self.oblige(st, 'lemma-assert', 'line%d' % node.lineno, c, ast.unparse(node.test))
             st.assume(c)
@@ -84,7 +84,7 @@ class StmtMixin(object):
         raise PyRaise(name, st, 'raise line %d' % node.lineno)
 
     def exec_If(self, node, st):
-        c = self.truth(st, self.ev(node.test, st))
+        c = self.ev_truth(node.test, st)
         if self.choose_bool(st, c):
             return self.exec_block(node.body, st)
         return self.exec_block(node.orelse, st)
@@ -102,6 +102,8 @@ class StmtMixin(object):
                     self.raise_if(st, z3.Or(i >= n, i < -n), 'IndexError', 'del list item')
                     j = z3.If(i < 0, n + i, i)
                     self.store_back(t.value, SV(cont.sort, z3.Concat(z3.Extract(cont.t, 0, j), z3.Extract(cont.t, j + 1, n - j - 1))), st)
+                elif is_ref(getattr(cont, 'sort', None)) and self.reg.class_info(cont.sort.cls, 'dictfield'):
+                    self.dict_store(st, cont, self.map_delete(self.dict_of(st, cont), idx, st))
                 elif is_ref(getattr(cont, 'sort', None)):
                     m = self.reg.method(cont.sort.cls, '__delitem__')
                     if m is None:
@@ -238,6 +240,8 @@ class StmtMixin(object):
             j = z3.If(i < 0, n + i, i)
             new = z3.Concat(z3.Extract(cont.t, 0, j), z3.Unit(coerce(val, s.elem).t), z3.Extract(cont.t, j + 1, n - j - 1))
             self.store_back(cont_node, SV(s, new), st)
+        elif is_ref(s) and self.reg.class_info(s.cls, 'dictfield'):
+            self.dict_store(st, cont, self.map_store(self.dict_of(st, cont), idx, val, st))
         elif is_ref(s):
             i = z3.simplify(idx.t) if (not isinstance(idx, PyVal) and idx.sort == INT) else None
             if i is not None and z3.is_int_value(i):
@@ -447,7 +451,7 @@ class StmtMixin(object):
         havocked = self.havoc_for_loop(st, node, spec)
         for lbl, text in spec.inv.items():
             st.assume(self.spec_bool(text, st))
-        c = self.truth(st, self.ev(node.test, st))
+        c = self.ev_truth(node.test, st)
         if self.choose_bool(st, c):
             d0 = self.spec_eval(spec.decreases, st).t if spec.decreases else None
             head_heap = dict((key, dict(v)) for key, v in st.heap.items())
